@@ -239,8 +239,8 @@ func parseCExpr(src string) (e CExpr, err error) {
 type parseErr string
 
 func (p *cparser) fail(f string, a ...any) { panic(parseErr(fmt.Sprintf(f, a...))) }
-func (p *cparser) peek() ctoken             { return p.toks[p.p] }
-func (p *cparser) next() ctoken             { t := p.toks[p.p]; p.p++; return t }
+func (p *cparser) peek() ctoken            { return p.toks[p.p] }
+func (p *cparser) next() ctoken            { t := p.toks[p.p]; p.p++; return t }
 func (p *cparser) isOp(s string) bool      { t := p.peek(); return t.k == tOp && t.s == s }
 func (p *cparser) accept(s string) bool {
 	if p.isOp(s) {
